@@ -1343,6 +1343,11 @@ def trans_gap_penalty(ctx, rule):
                             and U.is_const(x[3][0]):
                         return S.const_value(x[3][0])
                 return None
+            for a_ in t["args"]:
+                _, st_ = U.chain(sy.operand(a_))
+                extra = [x[0] for x in st_ if x[0] not in ("iter", "into_iter", "by_ref", "copied", "cloned")]
+                if extra:
+                    order_problem = "the zipped match sequences are restricted by `%s`: consecutive matches are no longer paired" % extra[0]
             s0, s1 = start_of(t["args"][0]), start_of(t["args"][1])
             if s0 is not None and s1 is not None and not (s0 == 0 and s1 == 1):
                 order_problem = "the zipped slices start at %s and %s (expected 0 and 1): prev / next are swapped or shifted" % (s0, s1)
